@@ -474,42 +474,97 @@ def build_sites_model(c):
 ORDER = {'bulk': 0, 'dislocations': 0, 'grain boundaries': 2, 'grain edges': 1, 'grain corners': 0}
 
 
-def run_sites(c, scale=None):
-    """the populations of the case are shapes; they are rescaled so that the phases of one site type
-    together occupy the fraction c['fill'] of the sites of that type (otherwise nearly every random
-    case is either empty or exhausted and a wrong occupied-site formula would be invisible)"""
+def pool_of(site):
+    """phases competing for the same sites.  Bulk and dislocation phases share one pool (number of particles against
+    bulkN0): DislocationDescription derives from BulkDescription and `_calcNucleationSites` tests BulkDescription first
+    (see notes/C14.md, observation (a)); the oracle follows the code there and is independent for everything else"""
+    return 'bulk' if site in ('bulk', 'dislocations') else site
+
+
+def sites_setup(c):
+    """model + per-phase occupation weights (computed here from public attributes, not by the code under test)"""
     m = build_sites_model(c)
     ns = m.matrixParameters.nucleationSites
     VmA = m.matrixParameters.volume.Vm
-    x = []
+    info = []
     for i, ph in enumerate(c['phases']):
-        N = np.array(ph['N'], dtype=float)
         st = ph['site']
-        j = ORDER[st]
         nuc = m.precipitateParameters[i].nucleation
         w = {'grain boundaries': lambda: float(nuc.gbRemoval) * (NAV / VmA) ** (2 / 3),
              'grain edges': lambda: float(np.sqrt(1 - nuc.GBk ** 2)) * (NAV / VmA) ** (1 / 3)}.get(st, lambda: 1.0)()
-        tot = {'grain boundaries': ns.GBareaN0, 'grain edges': ns.GBedgeN0, 'grain corners': ns.GBcornerN0}.get(st, ns.bulkN0)
-        occ = w * float(np.sum(N * m.PBM[i].PSDsize ** j))
-        same = sum(1 for q in c['phases'] if (q['site'] in ('bulk', 'dislocations')) == (st in ('bulk', 'dislocations')) and (st in ('bulk', 'dislocations') or q['site'] == st))
+        tot = float({'grain boundaries': ns.GBareaN0, 'grain edges': ns.GBedgeN0, 'grain corners': ns.GBcornerN0}.get(st, ns.bulkN0))
+        info.append({'w': w, 'tot': tot, 'order': ORDER[st], 'pool': pool_of(st), 'r': np.array(m.PBM[i].PSDsize, dtype=float),
+                     'surf': (NAV / m.precipitateParameters[i].volume.Vm) ** (2 / 3)})
+    return m, info
+
+
+def sites_populations(c, info, scale=None):
+    """the populations of the case are shapes; they are rescaled so that phase i occupies the fraction c['fill'][i] / (phases
+    in its pool) of the sites of its pool (otherwise nearly every random case is either empty or exhausted and a wrong
+    occupied-site formula would be invisible)"""
+    x = []
+    for i, ph in enumerate(c['phases']):
+        N = np.array(ph['N'], dtype=float)
+        occ = info[i]['w'] * float(np.sum(N * info[i]['r'] ** info[i]['order']))
+        same = sum(1 for q in info if q['pool'] == info[i]['pool'])
         if occ > 0:
-            N = N * (c['fill'][i] * tot / occ / same)
+            N = N * (c['fill'][i] * info[i]['tot'] / occ / same)
         x.append(N * (1.0 if scale is None else scale[i]))
-    return m, x, [float(quiet(m._calcNucleationSites, 0.0, x, p)) for p in range(len(c['phases']))]
+    return x
+
+
+def run_sites(c, scale=None, setup=None):
+    m, info = setup or sites_setup(c)
+    x = sites_populations(c, info, scale)
+    return m, x, [float(quiet(m._calcNucleationSites, 0.0, [a.copy() for a in x], p)) for p in range(len(c['phases']))]
+
+
+def expected_sites(c, info, x, p):
+    """property text: sites of the type, minus what the precipitates of ALL phases on that type occupy, never negative
+    (+ the surface sites of the parent phases)"""
+    occ = [info[q]['w'] * float(np.sum(x[q] * info[q]['r'] ** info[q]['order'])) for q in range(len(x)) if info[q]['pool'] == info[p]['pool']]
+    par = sum(4 * math.pi * float(np.sum(x[q] * info[q]['r'] ** 2)) * info[q]['surf'] for q in c['phases'][p].get('parents', []))
+    return max(par + info[p]['tot'] - sum(occ), 0.0), info[p]['tot'] + sum(occ) + par, sum(occ)
 
 
 def oracle_sites(c):
     v = []
+    nph = len(c['phases'])
     try:
-        m, x, s0 = run_sites(c)
-        _, _, s1 = run_sites(c, scale=c['grow'])
+        setup = sites_setup(c)
+        m, x, s0 = run_sites(c, setup=setup)
+        grown = []          # every phase's population varied on its own, then all together
+        for q in range(nph):
+            sc = [c['grow'][q] if i == q else 1.0 for i in range(nph)]
+            grown.append((q, sc, run_sites(c, scale=sc, setup=setup)[2]))
+        grown.append((None, c['grow'], run_sites(c, scale=c['grow'], setup=setup)[2]))
     except Exception as e:
         return [('no_internal_error', 'exception', '_calcNucleationSites raised %s: %s' % (type(e).__name__, e))]
+    info = setup[1]
     for p, ph in enumerate(c['phases']):
-        if not math.isfinite(s0[p]) or s0[p] < 0 or s1[p] < 0:
+        shared = sum(1 for q in info if q['pool'] == info[p]['pool'])
+        cls = ph['site'] + (', several phases on this site type' if shared > 1 else '')
+        if not math.isfinite(s0[p]) or s0[p] < 0 or any(g[2][p] < 0 for g in grown):
             v.append(('sites_nonneg', ph['site'], 'available sites for phase %d (%s) = %r' % (p, ph['site'], s0[p])))
-        if not ph.get('parents') and s1[p] > s0[p] * (1 + 1e-12):
-            v.append(('sites_decreasing', ph['site'], 'available sites for phase %d (%s) rise from %r to %r when every population grows by the factors %r' % (p, ph['site'], s0[p], s1[p], c['grow'])))
+        exp, mag, occ = expected_sites(c, info, x, p)
+        if abs(s0[p] - exp) > 1e-9 * mag:
+            v.append(('sites_value', cls, 'phase %d on %s: %r sites available; the %d phase(s) on this site type occupy %r of its %r sites, which leaves %r'
+                      % (p, ph['site'], s0[p], shared, occ, info[p]['tot'], exp)))
+        if ph.get('parents'):
+            continue
+        for q, sc, s1 in grown:
+            if s1[p] > s0[p] * (1 + 1e-12):
+                who = 'every population grows by the factors %r' % (sc,) if q is None else 'the population of phase %d (%s) grows by the factor %r' % (q, c['phases'][q]['site'], sc[q])
+                v.append(('sites_decreasing', cls, 'available sites for phase %d (%s) rise from %r to %r when %s' % (p, ph['site'], s0[p], s1[p], who)))
+                break
+            if q is not None and q != p and info[q]['pool'] == info[p]['pool'] and sc[q] > 1 and s0[p] > 0:
+                # precipitates of another phase on the same site type take sites away
+                occ_q = info[q]['w'] * float(np.sum(x[q] * info[q]['r'] ** info[q]['order']))
+                lost = min((sc[q] - 1) * occ_q, s0[p])
+                if lost > 1e-6 * mag and s0[p] - s1[p] < 0.5 * lost:
+                    v.append(('sites_decreasing', cls, 'available sites for phase %d (%s) go from %r to %r when phase %d on the same site type occupies %r more sites'
+                              % (p, ph['site'], s0[p], s1[p], q, (sc[q] - 1) * occ_q)))
+                    break
     return _dedupe(v)
 
 
@@ -590,7 +645,113 @@ def oracle_cache(c):
     return _dedupe(v)
 
 
-ORACLES = {'factors': oracle_factors, 'params': oracle_params, 'cnt': oracle_cnt, 'sites': oracle_sites, 'cache': oracle_cache}
+# ==========================================================================================
+# oracle 6: the result does not depend on how the numbers are passed (Python int / float, integer or float32
+# arrays, lists, 0-d arrays): every call is compared with the float64-array call on the same values
+def _variants(vals, intlike, f32ok):
+    """(label, scalar?, constructor of the argument for index set idx) for a list of float values"""
+    out = [('list of floats', False, lambda v: [float(a) for a in v]),
+           ('0-d float array', True, lambda v: np.array(float(v[0]))),
+           ('Python float', True, lambda v: float(v[0]))]
+    if intlike:
+        out += [('Python int', True, lambda v: int(v[0])), ('numpy int64 scalar', True, lambda v: np.int64(v[0])),
+                ('int64 array', False, lambda v: np.array([int(a) for a in v], dtype=np.int64)),
+                ('int32 array', False, lambda v: np.array([int(a) for a in v], dtype=np.int32)),
+                ('list of ints', False, lambda v: [int(a) for a in v]),
+                ('0-d int array', True, lambda v: np.array(int(v[0]))),
+                ('list mixing int and float', False, lambda v: [int(a) if i % 2 == 0 else float(a) for i, a in enumerate(v)])]
+    if f32ok:
+        out += [('float32 array', False, lambda v: np.array(v, dtype=np.float32)), ('float32 scalar', True, lambda v: np.float32(v[0]))]
+    return out
+
+
+def oracle_dtype(c):
+    """c: a 'cnt'-like parameter set with integer-valued driving forces / temperature / times that are exact in float32"""
+    N, NR, _, _ = impl()
+    v = []
+    try:
+        p = make_prec(c)
+        m = make_matrix(c)
+    except Exception as e:
+        return [('no_internal_error', 'exception', 'building the parameters raised %s' % e)]
+    dG = [float(d) for d in c['dG']]
+    n = len(dG)
+    T = float(c['T'])
+    therm = StubTherm(np.array(dG), c['D0'], c['D1'], c['xa'], c['xb'])
+
+    def cmp(fname, label, ref, got, rtol, arg_desc):
+        ref = [np.atleast_1d(np.array(r, dtype=float)) for r in (ref if isinstance(ref, tuple) else (ref,))]
+        try:
+            got = got()
+        except Exception as e:
+            v.append(('dtype_agreement', fname, '%s(%s) raised %s: %s; the float64 array call returns %r' % (fname, arg_desc, type(e).__name__, e, [list(r[:3]) for r in ref])))
+            return
+        got = [np.atleast_1d(np.array(g, dtype=float)) for g in (got if isinstance(got, tuple) else (got,))]
+        for r, g in zip(ref, got):
+            if r.shape != g.shape or not np.all((np.abs(r - g) <= rtol * np.abs(r)) | (r == g) | (np.isnan(r) & np.isnan(g))):
+                v.append(('dtype_agreement', fname, '%s called with %s (%s) returns %r; with the same values as a float64 array it returns %r'
+                          % (fname, label, arg_desc, [float(a) for a in g[:4]], [float(a) for a in r[:4]])))
+                return
+    # reference values (float64 arrays)
+    dGa = np.array(dG)
+    Rc, Gc = (np.atleast_1d(a).astype(float) for a in quiet(NR.nucleationBarrier, dGa, p))
+    Ta = T * np.ones(n)
+    Z = np.atleast_1d(quiet(NR.zeldovich, Ta, Rc, p)).astype(float)
+    xa_ = c['x'] * np.ones(n)
+    b1 = np.atleast_1d(quiet(NR.betaBinary1, therm, xa_, Ta, Rc, m, p)).astype(float)
+    tau = np.atleast_1d(quiet(NR.incubationTime, b1, Z, m)).astype(float)
+    tt = float(c['times'][0])
+    rate = np.atleast_1d(quiet(NR.nucleationRate, Z, b1, Gc, Ta, tau, tt)).astype(float)
+    rnuc = np.atleast_1d(quiet(NR.nucleationRadius, Ta, Rc, p)).astype(float)
+    for label, scalar, mk in _variants(dG, True, True):
+        idxs = [[i] for i in range(n)] if scalar else [list(range(n))]
+        rt = 2e-6 if 'float32' in label else 1e-12
+        for idx in idxs:
+            sub = [dG[i] for i in idx]
+            cmp('nucleationBarrier', label, (Rc[idx], Gc[idx]), lambda: quiet(NR.nucleationBarrier, mk(sub), p), rt, 'dG = %r' % (mk(sub),))
+            # temperature passed the same way (integer kelvin)
+            Tv = [T] * len(idx)
+            cmp('zeldovich', label, Z[idx], lambda: quiet(NR.zeldovich, mk(Tv), Rc[idx] if not scalar else float(Rc[idx][0]), p), rt, 'T = %r' % (mk(Tv),))
+            cmp('nucleationRadius', label, rnuc[idx], lambda: quiet(NR.nucleationRadius, mk(Tv), Rc[idx] if not scalar else float(Rc[idx][0]), p), rt, 'T = %r' % (mk(Tv),))
+            cmp('betaBinary1', label, b1[idx], lambda: quiet(NR.betaBinary1, therm, (xa_[idx] if not scalar else float(xa_[idx][0])), mk(Tv),
+                                                            Rc[idx] if not scalar else float(Rc[idx][0]), m, p), rt, 'T = %r' % (mk(Tv),))
+            cmp('nucleationRate', label, rate[idx],
+                lambda: quiet(NR.nucleationRate, Z[idx] if not scalar else float(Z[idx][0]), b1[idx] if not scalar else float(b1[idx][0]),
+                              Gc[idx] if not scalar else float(Gc[idx][0]), mk(Tv), tau[idx] if not scalar else float(tau[idx][0]), int(tt)),
+                # a float32 temperature enters the exponent G*/kT: its rounding is amplified by the size of the exponent
+                rt * (1 + np.abs(Gc[idx]) / (KB * T)) if 'float32' in label else rt, 'T = %r, time = %r' % (mk(Tv), int(tt)))
+    # float-valued arguments as lists / 0-d arrays / float32
+    for label, scalar, mk in _variants([0.0], False, False):
+        idxs = [[i] for i in range(n)] if scalar else [list(range(n))]
+        for idx in idxs:
+            cmp('zeldovich', label, Z[idx], lambda: quiet(NR.zeldovich, mk(list(Ta[idx])), mk(list(Rc[idx])), p), 1e-12, 'T, Rcrit as %s' % label)
+            cmp('incubationTime', label, tau[idx], lambda: quiet(NR.incubationTime, mk(list(b1[idx])), mk(list(Z[idx])), m), 1e-12, 'beta, Z as %s' % label)
+            cmp('nucleationRate', label, rate[idx], lambda: quiet(NR.nucleationRate, mk(list(Z[idx])), mk(list(b1[idx])), mk(list(Gc[idx])), mk(list(Ta[idx])), mk(list(tau[idx])), tt), 1e-12, 'all arguments as %s' % label)
+    # factor methods of the description of this case: ratios 0 and 1 as integers, 1/2 and 1/4 exactly representable
+    d = description(c['site'])
+    for fct in FACTORS:
+        for ks, intlike in (([0.0, 1.0, 0.0], True), ([0.5, 0.25, 0.0], False)):
+            ref = np.atleast_1d(quiet(getattr(d, fct), np.array(ks), False)).astype(float)
+            for label, scalar, mk in _variants(ks, intlike, True):
+                idxs = [[i] for i in range(len(ks))] if scalar else [list(range(len(ks)))]
+                for idx in idxs:
+                    sub = [ks[i] for i in idx]
+                    cmp('%s' % fct, label, ref[idx], lambda: quiet(getattr(d, fct), mk(sub), False), 2e-6 if 'float32' in label else 1e-12, '%s, gbk = %r' % (c['site'], mk(sub)))
+    return _dedupe(v)
+
+
+def gen_dtype(rng, site):
+    c = gen_cnt(rng, site, True)
+    # integer-valued, exactly representable in float32 and int32: multiples of 1e8 J/m3 up to 2e9, 0 and a negative one
+    ks = sorted(set(int(a) for a in rng.integers(1, 21, 5)))
+    c['dG'] = [float(k * 10 ** 8) for k in ks] + [0.0, -float(int(rng.integers(1, 10)) * 10 ** 8), float(10 ** 9)]
+    c['T'] = float(int(rng.integers(300, 1200)))
+    c['times'] = [float(int(10 ** rng.uniform(0, 6)))]
+    c['kind'] = 'dtype'
+    return c
+
+
+ORACLES = {'factors': oracle_factors, 'params': oracle_params, 'cnt': oracle_cnt, 'sites': oracle_sites, 'cache': oracle_cache, 'dtype': oracle_dtype}
 
 
 def evaluate_case(c):
@@ -652,12 +813,17 @@ def gen_cnt(rng, site, quick):
             'times': sorted(float(t) for t in 10 ** rng.uniform(-3, 8, 4))}
 
 
-def gen_sites(rng, quick):
-    nph = int(rng.integers(1, 4))
+def gen_sites(rng, quick, shared=None):
+    """shared = a site type: 2-3 phases all on that type (bulk / dislocations: a mix of the two, one pool)"""
+    if shared is None and rng.random() < 0.5:
+        shared = str(rng.choice(SITES))
+    nph = int(rng.integers(2, 4)) if shared else int(rng.integers(1, 4))
     bins = int(rng.choice([5, 12, 30]))
     phases = []
     for i in range(nph):
         site = str(rng.choice(SITES))
+        if shared:
+            site = str(rng.choice(['bulk', 'dislocations'])) if shared in ('bulk', 'dislocations') and i > 0 else shared
         N = 10 ** rng.uniform(8, 24, bins)
         N[rng.random(bins) < 0.3] = 0
         ph = {'site': site, 'gamma': float(rng.uniform(0.17, 0.5)), 'N': [float(v) for v in N]}
@@ -667,7 +833,7 @@ def gen_sites(rng, quick):
     return {'kind': 'sites', 'phases': phases, 'bins': bins, 'gbEnergy': float(rng.uniform(0.05, 0.25)),
             'grainSize': float(10 ** rng.uniform(-1, 2.5)), 'aspect': float(rng.uniform(1, 3)),
             'dislocationDensity': float(10 ** rng.uniform(10, 16)), 'bulkN0': (None if rng.random() < 0.6 else float(10 ** rng.uniform(20, 28))),
-            'grow': [float(rng.uniform(1.0, 3.0)) for _ in range(nph)],
+            'grow': [float(rng.uniform(1.2, 3.0)) for _ in range(nph)],
             'fill': [float(rng.choice([rng.uniform(0.05, 0.95), rng.uniform(0.05, 0.95), rng.uniform(1.0, 3.0)])) for _ in range(nph)]}
 
 
@@ -708,7 +874,13 @@ def gen_search(rng, quick, budget=1.0):
     for _ in range(int((4 if quick else 30) * budget)):
         for s in SITES:
             cases.append(gen_cnt(rng, s, quick))
-    for _ in range(int((10 if quick else 100) * budget)):
+    for _ in range(max(1, int((1 if quick else 6) * budget))):
+        for st in SITES:
+            cases.append(gen_dtype(rng, st))
+    for _ in range(max(1, int((1 if quick else 8) * budget))):
+        for st in SITES:
+            cases.append(gen_sites(rng, quick, shared=st))
+    for _ in range(int((6 if quick else 60) * budget)):
         cases.append(gen_sites(rng, quick))
     for _ in range(int((30 if quick else 400) * budget)):
         cases.append(gen_cache(rng, quick))
@@ -761,6 +933,11 @@ def shrink(c, clause, cls):
             d = dict(cur, ks=c['ks'][i:i + 2])
             if _fails(d, clause, cls):
                 return d
+    elif c['kind'] == 'dtype':
+        for d_ in c['dG']:
+            d = dict(cur, dG=[d_])
+            if _fails(d, clause, cls):
+                return d
     elif c['kind'] == 'cnt':
         for n in (1, 2):
             for i in range(len(c['dG']) - n + 1):
@@ -780,6 +957,12 @@ def shrink(c, clause, cls):
                     break
         return dict(cur, ops=ops)
     elif c['kind'] == 'sites':
+        if not any(p.get('parents') for p in c['phases']) and len(c['phases']) > 2:
+            for i in range(len(c['phases'])):
+                for j in range(i + 1, len(c['phases'])):
+                    d = dict(cur, phases=[c['phases'][i], c['phases'][j]], grow=[c['grow'][i], c['grow'][j]], fill=[c['fill'][i], c['fill'][j]])
+                    if _fails(d, clause, cls):
+                        return d
         for i in range(len(c['phases'])):
             if c['phases'][i].get('parents') or any(p.get('parents') for p in c['phases']):
                 continue
@@ -966,7 +1149,9 @@ def corr_cnt(ctx, quick):
     for site in SITES:
         for _ in range(ncase):
             c = gen_cnt(rng, site, True)
-            c['dG'] = sorted(c['dG'])[:: max(1, len(c['dG']) // 5)][:6]
+            nd = 4 if quick else 6          # quick tier: 4 driving forces per case (negative / zero / unclamped / clamped)
+            sd = sorted(c['dG'])
+            c['dG'] = [sd[int(round(j))] for j in np.linspace(0, len(sd) - 1, nd)]
             o = run_cnt(c, scalar=True)
             if o['err']:
                 meta.append((c, 'run', 0, None))
@@ -1140,7 +1325,7 @@ def corr_cache(ctx, quick):
 def site_of(c, clause):
     return {'factors': NSRC + ':' + SHORT.get(c.get('site', ''), '') + 'Description', 'params': NSRC + ':NucleationBarrierParameters',
             'cnt': 'kawin/precipitation/NucleationRate.py', 'sites': 'kawin/precipitation/KWNEuler.py:_calcNucleationSites',
-            'cache': NSRC + ':NucleationBarrierParameters'}[c['kind']]
+            'cache': NSRC + ':NucleationBarrierParameters', 'dtype': 'kawin/precipitation/NucleationRate.py'}[c['kind']]
 
 
 def report_hits(ctx, hits):
@@ -1167,7 +1352,7 @@ def search(ctx, cases):
             hs = evaluate_case(c)
         except Exception as e:
             hs = [('no_internal_error', 'exception', 'evaluating a %s case raised %s: %s' % (c['kind'], type(e).__name__, e))]
-        nontrivial = {'factors': c.get('site') in GBSITES, 'params': True, 'cache': True, 'sites': True,
+        nontrivial = {'factors': c.get('site') in GBSITES, 'params': True, 'cache': True, 'sites': True, 'dtype': True,
                       'cnt': any(d > 0 for d in c.get('dG', []))}[c['kind']]
         ctx.count(hexcase({k: v for k, v in c.items() if k != 'from_corpus'})['hex'], nontrivial)
         ctx.hist('search_kind', c['kind'] + ('/' + c['holder'] if c.get('holder') else '') + ('/corpus' if c.get('from_corpus') else ''))
